@@ -30,6 +30,22 @@ func mallocs(f func()) int {
 	return int(msB.Mallocs - msA.Mallocs)
 }
 
+// mallocsStable: for an operation that leaves no capacity changed, an allocation that belongs to the
+// operation repeats on every call; a stray allocation of the runtime (background sweeper, timers) does
+// not.  Returns the minimum over three calls when the first one allocated.
+func mallocsStable(f func()) int {
+	n := mallocs(f)
+	if n == 0 {
+		return 0
+	}
+	for k := 0; k < 2; k++ {
+		if m := mallocs(f); m < n {
+			n = m
+		}
+	}
+	return n
+}
+
 // allocShape: the setter fields of a well-formed message (no refusals): sizes up to the attribute limits
 type allocShape struct {
 	fields []string
@@ -145,7 +161,7 @@ func runAllocCase(op []int, prior, cur []string, priorData, curData, key []byte)
 				_ = d.GetFromAs(mp, t)
 			}
 			c0 := cap(d)
-			n := mallocs(func() { _ = d.GetFromAs(mc, t) })
+			n := mallocsStable(func() { _ = d.GetFromAs(mc, t) })
 			return []int{b2i(n > 0), b2i(n > 0)}, []int{c0} // a view into the message: the capacity changes without an allocation
 		case 3:
 			var a stun.XORMappedAddress
@@ -169,7 +185,7 @@ func runAllocCase(op []int, prior, cur []string, priorData, curData, key []byte)
 				_ = e.GetFrom(mp)
 			}
 			c0 := cap(e.Reason)
-			n := mallocs(func() { _ = e.GetFrom(mc) })
+			n := mallocsStable(func() { _ = e.GetFrom(mc) })
 			return []int{b2i(n > 0), b2i(n > 0)}, []int{c0} // Reason is a view into the message
 		default:
 			var u stun.UnknownAttributes
@@ -187,7 +203,7 @@ func runAllocCase(op []int, prior, cur []string, priorData, curData, key []byte)
 		switch op[0] {
 		case 7:
 			_ = stun.Fingerprint.Check(mc)
-			n = mallocs(func() { _ = stun.Fingerprint.Check(mc) })
+			n = mallocsStable(func() { _ = stun.Fingerprint.Check(mc) })
 		case 8:
 			mi := stun.MessageIntegrity(key)
 			// the Message was used before for the previous message: its Raw has that capacity
@@ -201,14 +217,12 @@ func runAllocCase(op []int, prior, cur []string, priorData, curData, key []byte)
 			_ = stun.Decode(curData, wm)
 			_ = wk.Check(wm) // the pool holds an object
 			cr := cap(mc.Raw)
-			n = mallocs(func() { _ = mi.Check(mc) })
-			n2 := mallocs(func() { _ = mi.Check(mc) })
-			_ = n2
+			n = mallocsStable(func() { _ = mi.Check(mc) })
 			// site 1 (re-keying) cannot be observed separately from site 2 by capacities: report "any"
 			// and let the two sites be told apart by the key length and the spare capacity in the case
 			return []int{b2i(n > 0)}, []int{cr}
 		default:
-			n = mallocs(func() {
+			n = mallocsStable(func() {
 				_, _ = mc.Get(stun.AttrUsername)
 				_, _ = mc.Get(stun.AttrFingerprint)
 				_ = mc.Contains(stun.AttrMessageIntegrity)
@@ -226,15 +240,12 @@ func runAllocCase(op []int, prior, cur []string, priorData, curData, key []byte)
 		cr, ca := cap(bm.Raw), cap(bm.Attributes)
 		n := mallocs(func() { _ = bm.Build(sc...) })
 		rawRe, attrRe := cap(bm.Raw) != cr, cap(bm.Attributes) != ca
-		// scratch site: an allocation not explained by Raw / Attributes growth
-		scratch := n > b2i(rawRe)+b2i(attrRe)
-		if rawRe || attrRe {
-			// growth may take several allocations (append doubles): the scratch site is then measured on a
-			// second, warm run
-			n2 := mallocs(func() { _ = bm.Build(sc...) })
-			scratch = n2 > 0
-		}
-		return []int{b2i(rawRe), b2i(attrRe), b2i(scratch), b2i(n > 0)}, []int{cr, ca}
+		// scratch site: an allocation not explained by Raw / Attributes growth; after the first Build the
+		// Message is warm, so whatever a further Build allocates (repeatably) is scratch
+		n2 := mallocsStable(func() { _ = bm.Build(sc...) })
+		scratch := n2 > 0
+		anyAlloc := n > 0 && (rawRe || attrRe || scratch)
+		return []int{b2i(rawRe), b2i(attrRe), b2i(scratch), b2i(anyAlloc)}, []int{cr, ca}
 	}
 	return []int{9}, nil
 }
@@ -340,12 +351,9 @@ func execAllocCase(o *out, f [][]int) []int {
 		cr, ca := cap(bm.Raw), cap(bm.Attributes)
 		n := mallocs(func() { _ = bm.Build(ss...) })
 		rawRe, attrRe := cap(bm.Raw) != cr, cap(bm.Attributes) != ca
-		scratch := n > b2i(rawRe)+b2i(attrRe)
-		if rawRe || attrRe {
-			n2 := mallocs(func() { _ = bm.Build(ss...) })
-			scratch = n2 > 0
-		}
-		return []int{b2i(rawRe), b2i(attrRe), b2i(scratch), b2i(n > 0)}
+		n2 := mallocsStable(func() { _ = bm.Build(ss...) })
+		scratch := n2 > 0
+		return []int{b2i(rawRe), b2i(attrRe), b2i(scratch), b2i(n > 0 && (rawRe || attrRe || scratch))}
 	}
 	return []int{9}
 }
@@ -361,9 +369,9 @@ func runC20(o *out, thorough bool, r *rng, _ []string) map[string]interface{} {
 	textTypesN := []int{0x0006, 0x0014, 0x0015, 0x8022}
 	for i := 0; i < n; i++ {
 		if i%200 == 199 {
-			debug.SetGCPercent(oldGC)
+			runtime.GC() // bound the heap; the pools are warmed again before anything is measured
 			runtime.GC()
-			debug.SetGCPercent(-1)
+			_ = new(stun.Message).Build(stun.BindingRequest, stun.MessageIntegrity("warm"))
 		}
 		// relation between previous and current use: same, previous larger in every dimension, independent, none
 		rel := i % 4
